@@ -5,7 +5,7 @@
     along which every dependency strictly decreases (which excludes every
     dependency path from a task to itself, [C16_ranked_acyclic]). *)
 From Coq Require Import List ZArith Bool Arith.
-From FF Require Import Sx TaskTree TaskTreeFacts.
+From FF Require Import Sx TaskTree TaskTreeFacts TreeFuel.
 Import ListNotations.
 
 (** Accepted => valid, for every task list and every fuel. *)
@@ -28,6 +28,17 @@ Proof.
   intros fuel t Hf; split; [apply build_accept_sound|intros H; apply build_accept_complete; assumption].
 Qed.
 Print Assumptions C16_accept_iff.
+
+(** The fuel the model really uses ([default_fuel t] = number of tasks + 2 levels) never runs out on a valid
+    DAG: every node queued in level k ends a dependency chain of k+1 distinct tasks. *)
+Theorem C16_fuel_adequate : forall t, valid_dag t -> cycle_check (default_fuel t) t <> None.
+Proof. exact valid_fuel_adequate. Qed.
+Print Assumptions C16_fuel_adequate.
+
+(** Hence, with no hypothesis about fuel: the repaired BuildRootNode accepts exactly the valid DAGs. *)
+Theorem C16_build_root_iff : forall t, build_root t = None <-> valid_dag t.
+Proof. exact build_root_iff. Qed.
+Print Assumptions C16_build_root_iff.
 
 (** A ranked graph has no cycle anywhere. *)
 Theorem C16_ranked_acyclic : forall t, ranked t -> forall a, ~ dep_path t a a.
